@@ -32,12 +32,19 @@ type c15Case struct {
 	// fallback instant in case the point is not reached that often.
 	point string
 	nth   int
+	// swap: the context that ends is one a client interceptor installed for the
+	// call (interceptors may replace the context they pass on); the context the
+	// application passed in stays alive.
+	swap bool
 }
 
 func (c c15Case) key() string {
 	mode := "cancel"
 	if c.deadline {
 		mode = "deadline"
+	}
+	if c.swap {
+		mode += "-of-interceptor-context"
 	}
 	return fmt.Sprintf("c15/h2=%v/%s/%s/%s/handler=%s/%s", c.http2, c.proto, c.kind, mode, c.handler, c.name)
 }
@@ -115,7 +122,18 @@ func c15Cases(run *ev.Run) []c15Case {
 			}
 		}
 	}
-	return out
+	// the same instants for a context installed by a client interceptor
+	var swapped []c15Case
+	for _, c := range out {
+		switch c.name {
+		case "instant-before-op-3", "inside-blocked-Receive", "after-first-message", "inside-blocked-call", "inside-blocked-close-and-receive", "between-sends", "inside-blocked-CloseResponse":
+			if c.http2 || c.kind != svc.Bidi {
+				c.swap = true
+				swapped = append(swapped, c)
+			}
+		}
+	}
+	return append(out, swapped...)
 }
 
 var c15Points = []string{"write.beforePipe", "closeWrite", "makeRequest.beforeDo", "makeRequest.afterDo", "makeRequest.afterValidate", "read.beforeBody", "closeRead.beforeDiscard", "setError.beforeClosePipe"}
@@ -165,8 +183,28 @@ func c15PointCases(run *ev.Run) []c15Case {
 	return out
 }
 
+// ctxSwapIcept passes a context of the harness' choosing down the chain.
+type ctxSwapIcept struct{ ctx context.Context }
+
+func (i ctxSwapIcept) WrapUnary(next connect.UnaryFunc) connect.UnaryFunc {
+	return func(_ context.Context, req connect.AnyRequest) (connect.AnyResponse, error) {
+		if !req.Spec().IsClient {
+			panic("client interceptor on a handler")
+		}
+		return next(i.ctx, req)
+	}
+}
+func (i ctxSwapIcept) WrapStreamingClient(next connect.StreamingClientFunc) connect.StreamingClientFunc {
+	return func(_ context.Context, spec connect.Spec) connect.StreamingClientConn {
+		return next(i.ctx, spec)
+	}
+}
+func (i ctxSwapIcept) WrapStreamingHandler(next connect.StreamingHandlerFunc) connect.StreamingHandlerFunc {
+	return next
+}
+
 func c15(run *ev.Run) int {
-	run.SetRule("instants = cancellation or deadline expiry before every operation of a bidi base program, before/between/after the operations of the typed unary, client-stream and server-stream APIs, and - triggered from a second goroutine once the operation has been blocked for 60 ms - inside a blocked Send (peer not reading), Receive (peer waiting; also mid-message with only part of an envelope delivered, mid-prefix with two of the five prefix bytes delivered, and while draining a message above the read limit), CloseAndReceive, unary call and CloseResponse; and inside the library: at the n-th time (n=1, thorough 1..3) the HTTP call reaches each of its 8 instrumented yield points (before the pipe write, closing the write side, before/after the HTTP round trip, after response validation, before a body read, before the drain in CloseResponse, before SetError closes the pipe), one case at a time; x 3 protocols x HTTP/1.1 + HTTP/2 x {cancel, deadline}; handlers block on their own ctx.Done() so they are still running at the instant; oracle: every operation failing after the instant has code canceled / deadline_exceeded (Send may return an error wrapping io.EOF), Receive never ends cleanly, unary never succeeds, handler context done (HTTP/2), every op returns (watchdog); distinct by (HTTP version, protocol, kind, instant, mode)")
+	run.SetRule("instants = cancellation or deadline expiry before every operation of a bidi base program, before/between/after the operations of the typed unary, client-stream and server-stream APIs, and - triggered from a second goroutine once the operation has been blocked for 60 ms - inside a blocked Send (peer not reading), Receive (peer waiting; also mid-message with only part of an envelope delivered, mid-prefix with two of the five prefix bytes delivered, and while draining a message above the read limit), CloseAndReceive, unary call and CloseResponse; and inside the library: at the n-th time (n=1, thorough 1..3) the HTTP call reaches each of its 8 instrumented yield points (before the pipe write, closing the write side, before/after the HTTP round trip, after response validation, before a body read, before the drain in CloseResponse, before SetError closes the pipe), one case at a time; x 3 protocols x HTTP/1.1 + HTTP/2 x {cancel, deadline} x {the application's context, a context installed by a client interceptor}; handlers block on their own ctx.Done() so they are still running at the instant; oracle: every operation failing after the instant has code canceled / deadline_exceeded (Send may return an error wrapping io.EOF), Receive never ends cleanly, unary never succeeds, handler context done (HTTP/2), every op returns (watchdog); distinct by (HTTP version, protocol, kind, instant, mode)")
 	run.Assume("on HTTP/1.1 net/http propagates a client disconnect to the handler context only after the request body was read; the handler-context clause is enforced on HTTP/2 and counted when observed on HTTP/1.1")
 	reg := svc.NewRegistry()
 	hs := svc.Handlers(reg)
@@ -304,6 +342,19 @@ func c15Run(run *ev.Run, srv *svc.Server, c c15Case) {
 			ops = append(ops, o)
 		}
 	}
+	if c.swap {
+		// the application's context never ends; the interceptor's does
+		extra := []connect.ClientOption{connect.WithInterceptors(ctxSwapIcept{ctx})}
+		if partial {
+			mode := "1"
+			if strings.Contains(c.name, "mid-prefix") {
+				mode = "prefix"
+			}
+			extra = append(extra, connect.WithInterceptors(headerIcept{"X-Verif-Partial", mode}))
+		}
+		cs = srv.Clients(c.http2, append(svc.ProtoOpts(c.proto, "proto"), extra...)...)
+		ctx = context.Background()
+	}
 	sd := &scripted{cs: cs, kind: c.kind, callID: call.ID, ctx: ctx, cancel: fire, timeout: 15 * time.Second, handlerDone: call.Log.Finished}
 	hooked := int32(0)
 	if hookOp != "" {
@@ -342,7 +393,7 @@ func c15Run(run *ev.Run, srv *svc.Server, c c15Case) {
 		call.ReleaseNow()
 		return
 	}
-	run.Eval(fmt.Sprintf("h2=%v|%s|%s|%s|%s|deadline=%v", c.http2, c.proto, c.kind, c.handler, c.name, c.deadline))
+	run.Eval(fmt.Sprintf("h2=%v|%s|%s|%s|%s|deadline=%v|interceptor-context=%v", c.http2, c.proto, c.kind, c.handler, c.name, c.deadline, c.swap))
 	detail := map[string]any{"case": key, "program": c.ops, "ops": describeOps(cr)}
 	defer call.ReleaseNow()
 	for _, o := range cr.Ops {
